@@ -73,6 +73,14 @@ var heapTargets = []target{
 	{"simple_tree_spreader.go", "toFormattedNode"},
 	{"simple_tree_spreader.go", "jsonNode.setChild"},
 	{"simple_tree_spreader.go", "jsonNode.getChild"},
+	// the tinywasm twins (compiled instead of the simple_tree_* files with -tags tinywasm)
+	{"wasm_tree_grower.go", "defaultGrower.grow"},
+	{"wasm_tree_grower.go", "defaultGrower.assemble"},
+	{"wasm_tree_grower.go", "defaultGrower.assembleBranch"},
+	{"wasm_tree_grower.go", "defaultGrower.assembleBranchDirectly"},
+	{"wasm_tree_grower.go", "defaultGrower.assembleBranchIndirectly"},
+	{"wasm_tree_grower.go", "defaultGrower.assembleBranchFinally"},
+	{"wasm_tree_spreader.go", "defaultSpreader.spreadBranch"},
 }
 
 // structs that live in the heap (handled through pointers) and value structs generated here; other value structs
@@ -123,7 +131,8 @@ var typeAlias = map[string]string{"T": "*" + recStruct, "sitter": "*" + recStruc
 var heapValueStructs = map[string]string{"defaultGrowerSimple": "simple_tree_grower.go", "fileConsiderer": "file_considerer.go",
 	"defaultMkdirerSimple": "simple_tree_mkdirer.go", "defaultWalkerSimple": "simple_tree_walker.go",
 	"defaultSpreaderSimple": "simple_tree_spreader.go", "defaultGrowSpreaderSimple": "simple_tree_grow_spreader.go",
-	"colorizeSpreaderSimple": "simple_tree_spreader.go"}
+	"colorizeSpreaderSimple": "simple_tree_spreader.go",
+	"defaultGrower": "wasm_tree_grower.go", "defaultSpreader": "wasm_tree_spreader.go"}
 var srcStructs = map[string]string{"branch": "node.go", "branchFormat": "simple_tree_grower.go"}
 
 type hfn struct {
@@ -618,7 +627,31 @@ func listOp(f *hfn, call *ast.CallExpr) string {
 	return ""
 }
 
+// nilConversion: `(*T)(nil)` — a nil pointer of a value struct without fields, used as a receiver
+func nilConversion(e ast.Expr) (string, bool) {
+	ce, ok := e.(*ast.CallExpr)
+	if !ok || len(ce.Args) != 1 {
+		return "", false
+	}
+	if idt, ok := ce.Args[0].(*ast.Ident); !ok || idt.Name != "nil" {
+		return "", false
+	}
+	pe, ok := ce.Fun.(*ast.ParenExpr)
+	if !ok {
+		return "", false
+	}
+	if st, ok := pe.X.(*ast.StarExpr); ok {
+		if _, ok := heapValueStructs[typeStr(st.X)]; ok {
+			return typeStr(st.X), true
+		}
+	}
+	return "", false
+}
+
 func (t *htr) typeOf(sc *hscope, e ast.Expr) string {
+	if sn, ok := nilConversion(e); ok {
+		return "*" + sn
+	}
 	switch x := e.(type) {
 	case *ast.TypeAssertExpr:
 		return typeStr(x.Type)
@@ -922,6 +955,12 @@ func (t *htr) throughPointer(sc *hscope, e ast.Expr) bool {
 // ---------- expressions ----------
 
 func (t *htr) ex(sc *hscope, e ast.Expr, want string) string {
+	if sn, ok := nilConversion(e); ok {
+		if len(t.structs[sn]) == 0 {
+			return "(" + sn + ".mk)" // a receiver without fields: its methods do not read it
+		}
+		return t.fail(e.Pos(), "nil receiver of a struct with fields")
+	}
 	switch x := e.(type) {
 	case *ast.TypeAssertExpr:
 		return t.ex(sc, x.X, want) // `v.(T)`: the records are of one type here
